@@ -139,7 +139,7 @@ def cases(tier):
     cs.append(dict(name="repair.clip.symbolic-box", fn=h_repair, params=dict(method="clip", box=None, K=K), profile="fp"))
     # prescribed movement: one case per translate of the box
     Kc = 1 if tier == "quick" else 2
-    cboxes = [(-20.0, 20.0), (0.0, 1.0), (-0.1, 0.2)] if tier == "quick" else CATALOGUE[:5] + CATALOGUE[7:]
+    cboxes = [(-20.0, 20.0), (0.0, 1.0)] if tier == "quick" else CATALOGUE[:5] + CATALOGUE[7:]
     for method in ("toroidal", "reflect"):
         for box in cboxes:
             for region in range(-(2**Kc), 2**Kc):
